@@ -47,6 +47,9 @@ structure Tables where
   descRaw : Bool
   toolOmitsDirectives : Bool
   assureOnce : Bool
+  dirRequiredUnchecked : Bool
+  dirRefTypeFirst : Bool
+  extendSchemaNeedsSchema : Bool
   dupKeyOverwrites : Bool
   maxParseDepth : Option Nat
   unionFirstCome : Bool
